@@ -5,7 +5,7 @@
     model/Heap.v).  The heap model must predict exactly that sharing. *)
 From Coq Require Import String List NArith ZArith Bool.
 From Coq Require Import Strings.Byte.
-From GoBT Require Import lib.Bytes lib.Hex lib.Sha256 model.ScriptNum model.Interp model.Heap corr.Corr corr.C05.
+From GoBT Require Import lib.Bytes lib.Hex lib.Sha256 model.ScriptNum model.Interp model.Heap model.HeapViews corr.Corr corr.C05.
 Import ListNotations.
 
 Definition triple := (Z * Z * Z)%type.
@@ -22,7 +22,10 @@ Definition snap_eqb (a b : list triple * list triple) : bool :=
 
 Inductive case :=
 | KProg (k : C05.case)
-| KLive (unlock lock : bytes) (flags : N) (ob : obs) (sharing : list (list triple * list triple)).
+| KLive (unlock lock : bytes) (flags : N) (ob : obs) (sharing : list (list triple * list triple))
+(** the same with zero-length items reported where they lie (model/HeapViews.v): an item of length 0 that has
+    capacity left is a view of a backing array too, and the harness says of which and where *)
+| KLiveZ (unlock lock : bytes) (flags : N) (ob : obs) (sharing : list (list triple * list triple)).
 
 Definition live_input (unlock lock : bytes) (flags : N) : exec_input :=
   mkExecInput unlock lock flags false false 0 0 0.
@@ -35,6 +38,15 @@ Definition check (k : case) : bool :=
       | HRes v sn _ =>
           match v, ob with
           | VOk, ObsOk | VErr, ObsErr | VPanic, ObsPanic => list_eqb snap_eqb (canon_trace u l sn) sh
+          | _, _ => false
+          end
+      | HResStuck => false
+      end
+  | KLiveZ u l f ob sh =>
+      match h_engine_execute no_sigops (live_input u l f) with
+      | HRes v sn h =>
+          match v, ob with
+          | VOk, ObsOk | VErr, ObsErr | VPanic, ObsPanic => trace_meets (canon_trace_z h u l sn) sh
           | _, _ => false
           end
       | HResStuck => false
